@@ -532,7 +532,7 @@ def crash_class(args, rc, err):
     h = hang_class(args)
     if h:
         return h
-    if rc == 124 and any(G.absurd_set_token(a, "list" in args) for a in args):
+    if rc in (124, 98) and any(G.absurd_set_token(a, "list" in args) for a in args):
         return "list-syntax-huge-index"
     return None
 
@@ -577,8 +577,9 @@ def check_calc_topology(ctx, kind, arg, ncmd, nmal, rng, corpus_cmds=(), nstdin=
             rc, out, err = run_tool(calc, targs + args, stdin=stdin, retry=not slow)
             if crashed(rc, err):
                 key = "crash:calc:" + (crash_class(args, rc, err) or "-".join(esc(a) for a in args)[:80])
-                ctx.violation(key, "hwloc-calc crashed / sanitizer report / timeout (rc=%d) on %r" % (rc, args),
-                              replay_text(kind, arg, "hwloc-calc", args, "stderr:\n" + err.decode(errors="replace")[-3000:]))
+                ctx.violation(key, "hwloc-calc crashed / sanitizer report / timeout (rc=%d) on %r%s" % (rc, args, (" stdin %r" % stdin[:300]) if stdin else ""),
+                              replay_text(kind, arg, "hwloc-calc", args, ("stdin: %s\n" % esc(stdin.decode("latin-1")) if stdin else "")
+                                          + "stderr:\n" + err.decode(errors="replace")[-3000:]))
             return rc, out.decode("latin-1"), err.decode("latin-1")
 
         cmds = []
@@ -1218,8 +1219,9 @@ def edit_xml(rng, x):
             ms = list(re.finditer(r'cache_size="(\d+)"', x))
             if ms:
                 m = rng.choice(ms)
+                tag = x[x.rfind("<", 0, m.start()):m.start()]
                 x = x[:m.start(1)] + str(int(m.group(1)) + rng.choice([1, 4096])) + x[m.end(1):]
-                edits.append("cache_size")
+                edits.append("memcache_size" if 'type="MemCache"' in tag else "cache_size")
         elif k == "mem":
             ms = list(re.finditer(r'local_memory="(\d+)"', x))
             if ms:
